@@ -216,6 +216,23 @@ def _bin_rest(check, repo, mod, fn) -> None:
     red = [c for c in calls_in(fn) if call_name(c) in ("np.sum", "np.add.reduce", "np.nansum", "np.mean")
            and c.args and unparse(c.args[0]) == "array_view"]
     red += [c for c in calls_in(fn) if isinstance(c.func, ast.Attribute) and c.func.attr in ("sum", "mean", "nansum") and unparse(c.func.value) == "array_view"]
+    # ufunc.reduceat reduces the LAST segment to the end of the axis: for block sums the operand must be trimmed to a whole number of blocks first
+    for c in calls_in(fn):
+        if isinstance(c.func, ast.Attribute) and c.func.attr == "reduceat" and c.args:
+            opnd = c.args[0]
+            seen_, trimmed, frontier = set(), False, [opnd]
+            while frontier:
+                e_ = frontier.pop()
+                if any(isinstance(x, ast.Subscript) and any(isinstance(y, ast.Slice) and y.upper is not None for y in ast.walk(x.slice)) for x in ast.walk(e_)) \
+                        or any(isinstance(x, ast.Call) and (call_name(x) or "").split(".")[-1] in ("take", "narrow", "compress") for x in ast.walk(e_)):
+                    trimmed = True
+                for x in ast.walk(e_):
+                    if isinstance(x, ast.Name) and x.id not in seen_:
+                        seen_.add(x.id)
+                        frontier.extend(d for d in definitions(fn, x.id) if isinstance(d, ast.AST) and not (isinstance(d, ast.Call) and isinstance(d.func, ast.Attribute) and d.func.attr == "reduceat"))
+            check.decide(trimmed, "C06-R2", "Dataset.bin: the operand of ufunc.reduceat is trimmed to a whole number of blocks", unparse(c)[:70], mod.line(c), definite=True,
+                         fail_detail=f"`{unparse(c)[:70]}`: reduceat's last segment runs to the END of the axis — the remainder pixels of a non-dividing bin factor are added to "
+                                     f"the last block instead of being dropped (sum not conserved block-wise; the mean divides by the nominal block volume)")
     if len(red) != 1:
         raise AnalysisError("Dataset.bin: block reduction call not found")
     r = red[0]
@@ -247,6 +264,40 @@ def _bin_rest(check, repo, mod, fn) -> None:
 # ------------------------------------------------------------------------------------- resample
 def _resample(check, repo, mod) -> None:
     _, fn = repo.func(f"{DS}:Dataset.fourier_resample")
+    # nominal vs realised: with `factors=` the output length is round(length·factor), so the amplitude rescale and the new sampling must be formed from the
+    # REALISED lengths.  A scale whose whole definition closure is the caller's `factors` (no length, no rounding anywhere) is the nominal factor.
+    def _closure(e_):
+        names, exprs, todo = set(), [], [e_]
+        while todo:
+            x_ = todo.pop()
+            exprs.append(x_)
+            for y in ast.walk(x_):
+                if isinstance(y, ast.Name) and y.id not in names:
+                    names.add(y.id)
+                    if y.id == "factors":
+                        continue            # the caller's nominal factors: what they are normalised from elsewhere is not evidence for THIS use
+                    todo.extend(d for d in definitions(fn, y.id) if isinstance(d, ast.AST))
+                    todo.extend(d.iter for d in definitions(fn, y.id) if hasattr(d, "iter") and isinstance(getattr(d, "iter"), ast.AST))
+                    todo.extend(d.value for d in definitions(fn, y.id) if hasattr(d, "value") and hasattr(d, "index") and isinstance(getattr(d, "value"), ast.AST))
+        realised = any((isinstance(y, ast.Attribute) and y.attr == "shape") or (isinstance(y, ast.Call) and (call_name(y) or "") in ("round", "np.round", "np.rint"))
+                       for x_ in exprs for y in ast.walk(x_))
+        return names, realised
+    n_scale = 0
+    for st in walk_no_nested_defs(fn):
+        e_ = None
+        if isinstance(st, ast.AugAssign) and isinstance(st.op, (ast.Mult, ast.Div)) and dotted(st.target) == "array_resampled":
+            e_, what = st.value, "the amplitude rescale"
+        elif isinstance(st, ast.Assign) and unparse(st.targets[0]).startswith("new_sampling["):
+            e_, what = st.value, "the new sampling"
+        if e_ is None:
+            continue
+        n_scale += 1
+        names, realised = _closure(e_)
+        nominal = "factors" in names and not realised
+        check.decide(not nominal, "C06-R3", f"Dataset.fourier_resample: {what} is formed from the realised lengths", unparse(st)[:70], mod.line(st), definite=True,
+                     fail_detail=f"`{unparse(st)[:70]}` depends on the caller's `factors` only: the output length is round(length·factor), so for a factor whose product with the "
+                                 f"length is not an integer the mean of the array / the field of view (N·sampling) is not conserved")
+    check.floor("fourier_resample: rescale / sampling statements", n_scale, 2)
     loops = [n for n in walk_no_nested_defs(fn) if isinstance(n, ast.For)]
     s_loop = next((n for n in loops if any(isinstance(x, ast.Assign) and unparse(x.targets[0]).startswith("new_sampling[") for x in n.body)), None)
     o_loop = next((n for n in loops if any(isinstance(x, ast.Assign) and unparse(x.targets[0]).startswith("new_origin[") for x in n.body)), None)
@@ -494,3 +545,4 @@ MANIFEST = {
 }
 MANIFEST["text"] += ' The block sum is recognised in function and method form and must not narrow the accumulator dtype.'
 MANIFEST["text"] += " For Dataset.crop a definite verdict is given when the slice stop is the caller's crop width reached through structure-preserving steps only (names, unpacking, dict(zip(…)), subscripts, starring): then a width of 0 provably reaches slice() as 0."
+MANIFEST["text"] += " Also: the operand of ufunc.reduceat is trimmed to a whole number of blocks (its last segment runs to the end of the axis); in fourier_resample the amplitude rescale and the new sampling must not depend on the caller's nominal `factors` alone (definition closure stopped at the parameter: no length, no rounding = nominal)."
